@@ -285,6 +285,7 @@ class NativeRT:
     events = []
     oracle = {}
     names = {}
+    repeat_last = False
     rng = random.Random(0)
 
     @classmethod
